@@ -10,5 +10,5 @@ CONSTANTS
   WithBad = TRUE
   WithNative = TRUE
   SimPick = 0
-INVARIANTS TypeOK OutMatchesWant OutMatchesWantStrict EmittedConsistent Drained EmitDone
+INVARIANTS TypeOK OutMatchesWant EmittedConsistent Drained EmitDone
 CHECK_DEADLOCK FALSE
